@@ -1,4 +1,5 @@
 import GBS.Model.Mixture
+import GBS.Extracted.Mixture
 import Mathlib.Tactic.Ring
 import Mathlib.Tactic.FieldSimp
 import Mathlib.Tactic.Linarith
@@ -424,5 +425,26 @@ theorem C12_absolute_preserved (ms : List (Option Mix)) (M : Option Rat) (b : Bo
 example : (match estimate [some { rel := some 30 }, some { abs := some 100 }, none] (some 1000) with
     | .ok (_, [some a, some b, _]) => a.rel == some 30 && b.abs == some 100
     | _ => false) = true := by decide +kernel
+
+/-- **C12 (tie by translation: the linked setters)**: `setSysX` and `setRelX` are regenerated on every run from the statements of
+`Mixture.system_mass.setter` and `Mixture.relative_mass.setter` (mixture.py:61-84; `Extracted/Mixture.lean`).  They are the model's
+`setSys` and `setRel`, on which `estimate` and every theorem above is built: the link absolute = relative/100 × system is proved of the
+setters as they are written now. -/
+theorem C12_translated_setSys (m : Mix) (mass : Rat) : setSysX m mass = setSys m mass := by
+  unfold setSysX setSys
+  split
+  · rfl
+  · cases hr : m.rel <;> cases ha : m.abs <;> simp
+
+theorem C12_translated_setRel (m : Mix) (f : Rat) : setRelX m f = setRel m f := by
+  unfold setRelX setRel
+  split
+  · rfl
+  · cases ha : m.abs with
+    | none => simp [truthy]
+    | some a =>
+      by_cases h0 : a = 0
+      · simp [truthy, h0]
+      · simp [truthy, h0, C12_translated_setSys]
 
 end GBS
